@@ -196,8 +196,15 @@ func (c C11) runSubscriptions(t *tape.Tape, opt core.RunOpt) (res core.Result) {
 				return
 			}
 		}
+		failFrom, dropped := 0, false
+		if t.Bool(1, 3) {
+			// a subscriber whose k-th delivery fails (it is removed then): the
+			// others registered through the same parsed document stay
+			failFrom, dropped = 1+t.Draw(2), t.Bool(1, 2)
+			res.Count("fault_subscriber_delivery_failure_planned", 1)
+		}
 		for _, w := range []*workload.SubWorld{wa, wb} {
-			w.AddSub(&workload.SimSub{ID: sid, Topic: topic, SelIndex: sel})
+			w.AddSub(&workload.SimSub{ID: sid, Topic: topic, SelIndex: sel, FailFrom: failFrom, Dropped: dropped})
 		}
 		vars := map[string]interface{}{"sid": sid}
 		_, ea := wa.Root.ResolveExecutable(exe, op, vars)
@@ -291,6 +298,12 @@ func (c C11) Run(t *tape.Tape, opt core.RunOpt) (res core.Result) {
 	var sig []string
 	executed := 0
 	keepVars := t.Bool(1, 3)
+	knob := t.Bool(1, 4)
+	if knob {
+		oldDepth := ggql.MaxResolveDepth
+		defer func() { ggql.MaxResolveDepth = oldDepth }()
+		res.Count("probe_depth_limit_changed_between_calls", 1)
+	}
 	growAt := -1
 	if strings.Contains(req.Src, "sized(") && t.Bool(2, 3) {
 		growAt = 1 + t.Draw(ncalls-1)
@@ -323,6 +336,12 @@ func (c C11) Run(t *tape.Tape, opt core.RunOpt) (res core.Result) {
 			}
 			plan = &workload.FaultPlan{FailAt: map[int]string{k: kind}}
 			fdesc = fmt.Sprintf(" fault %s at invocation %d", kind, k)
+		}
+		if knob && i > 0 && t.Bool(1, 2) {
+			// the application changes the library's depth limit between two calls
+			// (small values cut the response off: a fresh parse is cut off the same)
+			ggql.MaxResolveDepth = []int{2, 3, 4, 6, 100}[t.Draw(5)]
+			hist = append(hist, fmt.Sprintf("ggql.MaxResolveDepth = %d", ggql.MaxResolveDepth))
 		}
 		if i == growAt {
 			// the schema grows between two calls: the enum gains a value that the
